@@ -13,6 +13,7 @@ import (
 	"sort"
 	"strconv"
 	"sync"
+	"sync/atomic"
 	"testing"
 	"time"
 
@@ -49,6 +50,32 @@ func count(name string, n int64) {
 	statsMu.Lock()
 	stats.Counters[name] += n
 	statsMu.Unlock()
+	progress.Add(1)
+}
+
+// progress feeds the process watchdog: if nothing is counted for
+// VERIF_IDLE_S seconds (a controller parked on a lock an aborted run left
+// held, a hang outside any scheduler step), the process ends with status 2 —
+// inconclusive, never a violation.
+var progress atomic.Int64
+
+func startIdleWatchdog() {
+	limit := time.Duration(envInt("VERIF_IDLE_S", 300)) * time.Second
+	go func() {
+		last, since := int64(-1), time.Now()
+		for {
+			time.Sleep(5 * time.Second)
+			if p := progress.Load(); p != last {
+				last, since = p, time.Now()
+				continue
+			}
+			if time.Since(since) > limit {
+				fmt.Fprintf(os.Stderr, "VERIF-WATCHDOG no progress for %v: process is stuck outside the scheduler\n", limit)
+				writeStats()
+				os.Exit(2)
+			}
+		}
+	}()
 }
 
 func countMax(name string, v int64) {
@@ -229,6 +256,7 @@ var thorough = os.Getenv("VERIF_TIER") == "thorough"
 // clock only decides how many batches run, never what a batch contains.
 // With -rapid.failfile set it replays that single case instead.
 func runBatches(t *testing.T, engine string, prop func(*rapid.T)) {
+	startIdleWatchdog()
 	stats.Engine = engine
 	stats.Worker = int(envInt("VERIF_WORKER", 0))
 	if ff := flag.Lookup("rapid.failfile"); ff != nil && ff.Value.String() != "" {
